@@ -127,7 +127,7 @@ class SimulationControl:
         """Reset the simulation to its initial state.
 
         Clears the event heap, resets the clock and counters, and re-primes
-        sources and probes. Does NOT reset entity internal state.
+        sources, probes and the fault schedule. Does NOT reset entity internal state.
         """
         if self._sim._is_running and not self._sim._is_paused:
             raise RuntimeError("Cannot reset while simulation is actively running")
@@ -145,6 +145,7 @@ class SimulationControl:
         # Reset run state
         self._sim._current_time = self._sim._start_time
         self._sim._events_processed = 0
+        self._sim._events_cancelled = 0
         self._sim._is_running = False
         self._sim._is_paused = False
         self._sim._last_event = None
@@ -162,6 +163,12 @@ class SimulationControl:
         for probe in self._sim._probes:
             initial_events = probe.start(self._sim._start_time)
             for event in initial_events:
+                self._sim._event_heap.push(event)
+
+        # Re-prime the fault schedule (same position as in Simulation.__init__)
+        if self._sim._fault_schedule is not None:
+            fault_events = self._sim._fault_schedule.start(self._sim._start_time, self._sim)
+            for event in fault_events:
                 self._sim._event_heap.push(event)
 
         # Replay events that were scheduled before the first run()
